@@ -35,15 +35,19 @@ Definition print_set (kw : tok) (l : list Z) : list tok :=
   | c => kw :: TN (Z.of_nat (List.length c)) :: map TN c
   end.
 
+Definition print_ops (o : option (op * list (option Z))) : list tok :=
+  match o with
+  | None => []
+  | Some (o, ids) =>
+      (match o with OInter => KINTE | OUnion => KUNION end)
+      :: TN (Z.of_nat (List.length ids)) :: print_ids ids
+  end.
+
+Definition print_fict (b : bool) : list tok := if b then [KFICTIVE] else [].
+
 Definition print_vol (v : vol) : list tok :=
   [KEQUA] ++ print_set KPLUS (v_plus v) ++ print_set KMINUS (v_minus v)
-  ++ (match v_ops v with
-      | None => []
-      | Some (o, ids) =>
-          (match o with OInter => KINTE | OUnion => KUNION end)
-          :: TN (Z.of_nat (List.length ids)) :: print_ids ids
-      end)
-  ++ (if v_fict v then [KFICTIVE] else []).
+  ++ print_ops (v_ops v) ++ print_fict (v_fict v).
 
 Definition print_line (k : Z) (v : vol) : list tok := KVOLU :: TN k :: print_vol v ++ [KENDV].
 
